@@ -406,6 +406,9 @@ pub fn step(app: &mut SApp, nm: &Names, st: &SState, op: &SOp, cfg: &Cfg, ops_al
         report_outer(class, detail)
     };
     let report: &mut dyn FnMut(&str, Value) = &mut counting;
+    // restoring a state is the harness's business, not the subject's: the block is put in place
+    // over an EMPTY store (set_block runs the staking end-blocker), then the state's store goes in
+    *app.storage_mut() = SnapStorage::new();
     app.set_block(st.block.clone());
     *app.storage_mut() = st.storage.clone();
     let pre = &st.obs;
